@@ -44,6 +44,14 @@ func (c *OpenIDConnectExplicitHandler) PopulateTokenEndpointResponse(ctx context
 		return errorsx.WithStack(fosite.ErrServerError.WithDebug("Failed to generate id token because session must be of type fosite/handler/openid.Session."))
 	}
 
+	// The storage may hand the same request object to concurrent token requests presenting the same code:
+	// mint the ID token from a private copy instead of writing to the stored one.
+	if cloned, ok := sess.Clone().(Session); ok {
+		authorize = authorize.Sanitize(oidcParameters)
+		authorize.SetSession(cloned)
+		sess = cloned
+	}
+
 	claims := sess.IDTokenClaims()
 	if claims.Subject == "" {
 		return errorsx.WithStack(fosite.ErrServerError.WithDebug("Failed to generate id token because subject is an empty string."))
